@@ -20,6 +20,7 @@ import (
 	"fmt"
 	"math"
 	"sort"
+	"strconv"
 	"strings"
 	"sync"
 	"time"
@@ -489,8 +490,6 @@ func (d *Datastore) DeviationMgr(ctx context.Context) {
 
 func (d *Datastore) runDeviationUpdate(ctx context.Context, dm map[string]sdcpb.DataServer_WatchDeviationsServer) {
 
-	sep := "/"
-
 	// send deviation START
 	for _, dc := range dm {
 		err := dc.Send(&sdcpb.WatchDeviationResponse{
@@ -510,7 +509,7 @@ func (d *Datastore) runDeviationUpdate(ctx context.Context, dm map[string]sdcpb.
 	// go through config and calculate deviations
 	for upd := range d.cacheClient.ReadCh(ctx, d.Name(), &cache.Opts{Store: cachepb.Store_CONFIG}, [][]string{nil}, 0) {
 		// save the updates path as an already checked path
-		configPaths[strings.Join(upd.GetPath(), sep)] = struct{}{}
+		configPaths[deviationPathKey(upd.GetPath())] = struct{}{}
 
 		v, err := upd.Value()
 		if err != nil {
@@ -669,8 +668,7 @@ func (d *Datastore) runDeviationUpdate(ctx context.Context, dm map[string]sdcpb.
 
 	for _, upds := range intendedUpdates {
 		for _, upd := range upds {
-			path := strings.Join(upd.GetPath(), sep)
-			if _, exists := configPaths[path]; !exists {
+			if _, exists := configPaths[deviationPathKey(upd.GetPath())]; !exists {
 
 				// iv, err := upd.Value()
 				// if err != nil {
@@ -728,6 +726,18 @@ func (d *Datastore) runDeviationUpdate(ctx context.Context, dm map[string]sdcpb.
 	d.md.Lock()
 	d.currentIntentsDeviations = newDeviations
 	d.md.Unlock()
+}
+
+// deviationPathKey is the key under which a path counts as seen in running. Key values may hold any character,
+// a separator between the elements could be part of one of them: each element is prefixed with its length.
+func deviationPathKey(path []string) string {
+	sb := strings.Builder{}
+	for _, pe := range path {
+		sb.WriteString(strconv.Itoa(len(pe)))
+		sb.WriteString(":")
+		sb.WriteString(pe)
+	}
+	return sb.String()
 }
 
 // equalDeviationValues compares two values of one path that have been brought to the YANG type of the path.
